@@ -28,7 +28,7 @@ PASSED=$(grep -E "^test result:" "$LOG" | awk '{s+=$4} END{print s}')
 FAILED=$(grep -E "^test result:" "$LOG" | awk '{s+=$6} END{print s}')
 mv /tmp/seeded_demo_$ID.rs "$WT/$CRATE/tests/seeded_demo.rs"
 echo "== our check on the patch" >>"$LOG"
-VERIF_THREADS=6 /verif/tools/mutant_run.sh "$OUT/patch.diff" "$ID" "$TIER" >"/tmp/verify-$ID-check.log" 2>&1; CHECK=$?
+VERIF_THREADS=6 env -u CARGO_TARGET_DIR /verif/tools/mutant_run.sh "$OUT/patch.diff" "$ID" "$TIER" >"/tmp/verify-$ID-check.log" 2>&1; CHECK=$?
 echo "$ID: demo_clean_exit=$CLEAN demo_patched_exit=$PATCHED suite_exit=$SUITE (sum passed=$PASSED failed=$FAILED incl. demo runs) check_exit=$CHECK"
 if [ $CLEAN -eq 0 ] && [ $PATCHED -ne 0 ] && [ $SUITE -eq 0 ]; then
   mkdir -p "/verif/seeded/$ID/demo"
